@@ -359,6 +359,15 @@ def main():
             elif ent: defect_notes.append("defect lemma %s did not verify: finding %s may no longer be present" % (dl["function"], dl["finding"]))
         obligations = sum(r.get("verified", 0) + r.get("errors", 0) for r in results)
         discharged = sum(r.get("verified", 0) for r in results)
+        # An obligation (function body) that fails ONLY because of a listed known finding is reported under
+        # masked_by_known_findings and counted neither as an obligation nor as discharged (it is not proved, and it is
+        # not a new violation); kani_unit applies the same rule to its known-finding harness.
+        bad_fns = set((f.get("unit"), f.get("function")) for f in violations + others)
+        masked_fns = set((f.get("unit"), f.get("function")) for f, e in masked
+                         if f.get("clause") != "defect lemma verified" and not str(f.get("unit", "")).startswith("replay:")
+                         and not f.get("harness"))
+        excluded = len([x for x in masked_fns if x not in bad_fns])
+        obligations -= excluded
         wall = time.time() - t0
         # ---- evidence
         trusted = []
@@ -407,8 +416,14 @@ def main():
             "wall_s": round(wall, 2),
             "violations": len(violations),
         }
-        os.makedirs(os.path.join(ROOT, "evidence"), exist_ok=True)
-        json.dump(ev, open(os.path.join(ROOT, "evidence", prop + ".json"), "w"), indent=1)
+        # evidence under /verif/evidence only for runs against /repo itself (developer runs against a scratch worktree
+        # with --repo must never overwrite the committed evidence)
+        if os.path.realpath(a.repo) == os.path.realpath("/repo"):
+            evdir = os.path.join(ROOT, "evidence")
+        else:
+            evdir = os.path.join(tempfile.gettempdir(), "verif-evidence-scratch")
+        os.makedirs(evdir, exist_ok=True)
+        json.dump(ev, open(os.path.join(evdir, prop + ".json"), "w"), indent=1)
         # ---- verdict
         for f, e in masked:
             pass
@@ -420,6 +435,7 @@ def main():
             import replay
             os.makedirs(os.path.join(ROOT, "replay", "out"), exist_ok=True)
             rp = os.path.join(ROOT, "replay", "out", "%s-%d.json" % (prop, int(time.time())))
+            ev["coverage"]["replay_file"] = rp
             # a back end may attach a witness it has already replayed on the real crate (Kani counterexample): honour it
             witness = next((f["witness"] for f in violations if (f.get("witness") or {}).get("found")), None)
             try:
